@@ -591,12 +591,24 @@ def build_templates_unit(cfg, n, outdir):
     blocks = tmpl.template_blocks(raw, 'generate_query_iter', 'iter_bind_mut', TMPL_ARCHS, TMPL_PARAMS, 'decide_iter', log)
     harness.append('fn tmpl_iter(world: &mut WorldS, tr_a: &mut Ghost<Seq<Visit>>, tr_b: &mut Ghost<Seq<Visit>>)\n{\n'
                    + '\n'.join(blocks) + '\n}\n')
+    # ecs_iter_borrow! (FetchMode::Borrow) with shared parameters only (RefMut accessors are outside the abstraction)
+    blocks = tmpl.template_blocks(raw, 'generate_query_iter', 'iter_bind_borrow', TMPL_ARCHS,
+                                  [('EntityWild', None, False), ('EntityDirectWild', None, False), ('Component', 'CompX', False)],
+                                  'decide_iter_borrow', log, mode='Borrow')
+    harness.append('fn tmpl_iter_borrow(world: &WorldS, tr_a: &mut Ghost<Seq<Visit>>, tr_b: &mut Ghost<Seq<Visit>>)\n{\n'
+                   + '\n'.join(blocks) + '\n}\n')
     # ecs_find! (FetchMode::Mut) with a dynamically typed key, shared and direct
     from . import worldgen
     for fname, kty in (('tmpl_find_any', 'EntityAny'), ('tmpl_find_direct_any', 'EntityDirectAny')):
         body = tmpl.find_template(raw, worldgen.SCHEMA.name, TMPL_ARCHS, TMPL_PARAMS, 'decide_find', 'key', log)
         body = worldgen.rule_optmap_all(body, log)
         harness.append('fn %s(world: &mut WorldS, key: %s) -> Option<u8>\n{\n' % (fname, kty) + body + '\n}\n')
+    # ecs_find_borrow! (FetchMode::Borrow), shared parameters, dynamically typed key
+    body = tmpl.find_template(raw, worldgen.SCHEMA.name, TMPL_ARCHS,
+                              [('EntityWild', None, False), ('EntityDirectWild', None, False), ('Component', 'CompX', False)],
+                              'decide_find_borrow', 'key', log, mode='Borrow')
+    body = worldgen.rule_optmap_all(body, log)
+    harness.append('fn tmpl_find_borrow_any(world: &WorldS, key: EntityAny) -> Option<u8>\n{\n' + body + '\n}\n')
     htext = '\n'.join(harness)
     from .extract import rule_panic
     htext = rule_panic(htext, 'macros/src/generate/query.rs', table, log)
